@@ -572,12 +572,16 @@ def load_many(unit_list, repo=None):
     return [load(u, repo) for u in unit_list]
 
 
+LOADED_UNITS = set()        # every unit any rule of this run loaded facts for (evidence: units_parsed)
+
+
 class Program:
     """A set of TUs with cross-TU lookups (functions by plain qualified name)."""
 
     def __init__(self, unit_list, repo=None):
         self.repo = repo or REPO
         self.units = list(unit_list)
+        LOADED_UNITS.update(u if not os.path.isabs(u) else os.path.relpath(u, VERIF) for u in self.units)
         self.tus = load_many(self.units, self.repo)
         self.by_unit = dict(zip(self.units, self.tus))
 
